@@ -753,6 +753,36 @@ fn body_json<'tcx>(tcx: TyCtxt<'tcx>, ldid: LocalDefId) -> Option<J> {
         blocks.push(b);
     }
     o.put("blocks", J::Arr(blocks));
+    // promoted constants (`&Unit::None`, `&[..]` literals): tiny straight-line bodies
+    if matches!(kind, DefKind::Fn | DefKind::AssocFn | DefKind::Closure) {
+        let mut proms = Vec::new();
+        for (_, pb) in tcx.promoted_mir(did).iter_enumerated() {
+            let mut p = J::obj();
+            let mut locals = Vec::new();
+            for (_, d) in pb.local_decls.iter_enumerated() {
+                locals.push(ty_json(tcx, d.ty));
+            }
+            p.put("locals", J::Arr(locals));
+            let mut blocks = Vec::new();
+            for (_, data) in pb.basic_blocks.iter_enumerated() {
+                let mut b = J::obj();
+                let mut stmts = Vec::new();
+                for s in &data.statements {
+                    if let Some(j) = stmt_json(tcx, did, pb, s) {
+                        stmts.push(j);
+                    }
+                }
+                b.put("s", J::Arr(stmts));
+                b.put("t", term_json(tcx, did, pb, data.terminator()));
+                blocks.push(b);
+            }
+            p.put("blocks", J::Arr(blocks));
+            proms.push(p);
+        }
+        if !proms.is_empty() {
+            o.put("promoted", J::Arr(proms));
+        }
+    }
     Some(o)
 }
 
